@@ -40,7 +40,7 @@ def explore(ctx):
         "distinct_nontrivial": shared,
         "traces_validated_against_impl": len(cases) - ndis,
         "disagreements": ndis,
-        "rule": "random import graphs of 1-3 stateful libraries, in four cases of ten plus a library WITHOUT import declaration whose procedures read and assign a name the program defines (exports with and without rename, an internal state variable, "
+        "rule": "random import graphs of 1-3 stateful libraries, in four cases of ten plus a library WITHOUT import declaration whose procedures read and assign a name the program defines, in four of ten plus a library that exports nothing and acts when loaded, named by several import declarations (exports with and without rename, an internal state variable, "
                 "an unexported helper, procedures that call procedures of the libraries they import, optionally a tick in the "
                 "body to count instantiations, optionally a definition of a name the library also imports - from (scheme base) or from "
                 "another library - exported under its own or another name; export / import / begin declarations in every order "
